@@ -282,6 +282,83 @@ def rule_payload_cache_retention(ctx):
             ctx.ob(R, "retain predicate", False, "block_proposal_cache.retain(..) does not compare the block number with the highest commit certificate's number: payloads of blocks that are not finalized can be dropped (predicate: %s)" % show(Inliner(ctx).ret_term(g))[:140], where)
 
 
+def rule_timer_writers(ctx):
+    R = "C06.8"
+    ctx.rule(R, "the view timer is re-armed only when a view starts or a timeout fires: exactly the view starter, the timeout starter and the constructor write view_timeout, and what they write is now + config.view_timeout (or the value restored at start). A timer pushed back on other events (each accepted message, each vote) can be starved forever by a peer that keeps such events coming - no timeout, no retransmission, no view change")
+    allowed = {"start_new_view", "start_timeout", "start"}
+    found = {}
+    n = 0
+    for f in bft_bodies(ctx):
+        T = ctx.T(f)
+        for bb in range(len(f.blocks)):
+            for names, kind, node in Q.stmt_field_writes(f, bb, SM):
+                if "view_timeout" in names:
+                    n += 1
+                    found.setdefault(root_fn(f).qname.split("::")[-1], []).append((f, node))
+    extra = sorted(set(found) - allowed)
+    for k in extra:
+        f, node = found[k][0]
+        ctx.ob(R, "writer %s" % k, False, "StateMachine.view_timeout is also written in %s: the view timer no longer measures the time since the view started / last timed out" % k, f.loc(node.get("ln")))
+    ctx.ob(R, "writers of view_timeout", not extra and {"start_new_view", "start_timeout"} <= set(found), "StateMachine.view_timeout is written by %s" % sorted(found) if not extra else
+           "unexpected writers: %s" % extra)
+    ctx.floor(R, "writes of view_timeout", n, 2)
+
+
+def rule_dispatch_and_errors(ctx):
+    R = "C06.9"
+    ctx.rule(R, "replica loop dispatch: each ChonkyMsg variant reaches exactly its own handler, and after a handler ran the loop stops only for the handler's Internal error (cancellation / storage failure) - a rejected message (old, invalid, wrong leader ...) never ends the replica, whatever a peer sends")
+    f = ctx.body(SM + "::run")
+    T = ctx.T(f)
+    cfg = ctx.cfg(f, with_cancel=False)
+    H = {"LeaderProposal": "on_proposal", "ReplicaCommit": "on_commit", "ReplicaTimeout": "on_timeout", "ReplicaNewView": "on_new_view"}
+    recvs = [c["bb"] for c in T.calls() if c["q"].endswith("prunable_mpsc::Receiver::recv")]
+    hcalls = {}
+    for c in T.calls():
+        q = (c["rq"] or c["q"])
+        for v, h in H.items():
+            if q == SM + "::" + h:
+                hcalls.setdefault(h, []).append(c["bb"])
+    ctx.floor(R, "handlers called from the loop", len(hcalls), 4)
+    if not recvs:
+        ctx.ob(R, "loop shape", False, "recv not found in the replica loop", f.loc())
+        return
+    head = recvs[0]
+    # variant dispatch
+    arms = None
+    for bb in range(len(f.blocks)):
+        si = T.switch_info(bb)
+        if si and si[0][0] == "discr":
+            labs = set(l for ls in si[1].values() for l in ls)
+            if set(H) <= labs:
+                arms = si[1]
+    if arms is None:
+        ctx.note("C06.9 variant dispatch: no switch over the four ChonkyMsg variants found - not decided")
+    else:
+        for tb, ls in arms.items():
+            for v in ls:
+                if v not in H:
+                    continue
+                r = cfg.reach_from([tb], avoid_blocks=frozenset([head]))
+                got = sorted(h for h, bbs in hcalls.items() if set(bbs) & r)
+                ok = got == [H[v]]
+                ctx.ob(R, "dispatch %s" % v, ok, "%s -> %s" % (v, H[v]) if ok else "a %s message reaches %s (expected exactly %s)" % (v, got, H[v]), f.loc())
+    # after a handler, only its Internal error leaves the loop
+    rets = set(cfg.returns())
+    for h, bbs in sorted(hcalls.items()):
+        e_int = []
+        for bb in range(len(f.blocks)):
+            si = T.switch_info(bb)
+            if si and si[0][0] == "discr":
+                for tb, ls in si[1].items():
+                    if "Internal" in ls and len(ls) == 1:
+                        e_int.append((bb, tb))
+        for cb in bbs:
+            r = cfg.reach_from([cb], avoid_blocks=frozenset([head]), avoid_edges=frozenset(e_int))
+            bad = sorted(rets & r)
+            ctx.ob(R, "%s errors" % h, not bad and bool(e_int), "after %s the loop is left only through the Internal arm of its error" % h if not bad and e_int else
+                   "after %s the replica loop can return for a non-internal outcome (a message that is merely rejected stops the replica)" % h, f.loc(f.blocks[cb]["t"].get("ln")))
+
+
 from .c03 import rule_proposals_roundtrip   # a restarted replica must still hold the payloads it voted for (else the block cannot be built when its certificate forms)
 
-RULES = [("C06.7", rule_payload_cache_retention), ("C03.10", rule_proposals_roundtrip), ("C06.1", rule_main_loop), ("C06.2", rule_timeout_starter), ("C06.3", rule_bootstrap), ("C06.4", rule_catch_up), ("C06.5", rule_view_starter), ("C06.6", rule_proposer)]
+RULES = [("C06.7", rule_payload_cache_retention), ("C03.10", rule_proposals_roundtrip), ("C06.1", rule_main_loop), ("C06.2", rule_timeout_starter), ("C06.3", rule_bootstrap), ("C06.4", rule_catch_up), ("C06.5", rule_view_starter), ("C06.6", rule_proposer), ("C06.8", rule_timer_writers), ("C06.9", rule_dispatch_and_errors)]
